@@ -660,3 +660,60 @@ Proof.
   destruct (accept (init C04Refute.cs2 false) C04Refute.evs2) as [s|] eqn:E; [|vm_compute in E; discriminate].
   exists s. split; [reflexivity|]. repeat split; vm_compute; reflexivity.
 Qed.
+
+(* ---- the monitor unfolded: a position-quantified statement about the history ----------------------- *)
+Definition obs_at (cs : amap pconf) (evs : list (tid * event)) (k : nat) : obs :=
+  fold_left (obs_step cs) (firstn k evs) (obs0 cs).
+
+Lemma mon_run_nth cs m : forall evs o k0, mon_run cs m o evs k0 = None ->
+  forall k te, nth_error evs k = Some te -> m (fold_left (obs_step cs) (firstn k evs) o) te = true.
+Proof.
+  induction evs as [|e r IH]; intros o k0 Hrun k te Hn; [destruct k; discriminate|].
+  cbn in Hrun. destruct (m o e) eqn:Em; [|discriminate]. destruct k as [|k]; cbn in *.
+  - injection Hn as <-. exact Em.
+  - eapply IH; eauto.
+Qed.
+
+Lemma holds_nth cs m evs : holds cs m evs = true ->
+  forall k te, nth_error evs k = Some te -> m cs (obs_at cs evs k) te = true.
+Proof.
+  unfold holds. destruct (mon_run cs (m cs) (obs0 cs) evs 0) eqn:E; [discriminate|]. intros _ k te Hn.
+  exact (mon_run_nth cs (m cs) evs (obs0 cs) 0 E k te Hn).
+Qed.
+
+(* what mon_C04 says at a Run() return with code c, in words of the observer's facts *)
+Definition C04_at_return (o : obs) (c : Z) : Prop :=
+  (forall x, In x (vals (oi o)) -> o_alive x = true -> o_byapi x = true) /\
+  (o_triggers o = [] -> c = 0%Z) /\
+  (o_triggers o <> [] ->
+     exists t, In t (o_triggers o) /\ snd (fst t) = c /\
+               (snd t = false \/ o_api_sd_first o = true \/ forall t', In t' (o_triggers o) -> snd t' = true)).
+
+Lemma mon_C04_spec cs o th c : mon_C04 cs o (th, ERunReturn c) = true -> C04_at_return o c.
+Proof.
+  unfold mon_C04. cbn [snd]. intros H. apply andb_true_iff in H. destruct H as [H1 H2]. split; [|split].
+  - intros x Hin Ha. rewrite forallb_forall in H1. specialize (H1 x Hin). rewrite Ha in H1. exact H1.
+  - intros E. rewrite E in H2. now apply Z.eqb_eq.
+  - intros Hne. destruct (o_triggers o) as [|t0 ts] eqn:Etr; [congruence|].
+    assert (Hany : existsb (fun t : iid * Z * bool => (snd (fst t) =? c)%Z) (t0 :: ts) = true ->
+                   (o_api_sd_first o = true \/ forall t', In t' (t0 :: ts) -> snd t' = true) ->
+                   exists t, In t (t0 :: ts) /\ snd (fst t) = c /\
+                             (snd t = false \/ o_api_sd_first o = true \/ forall t', In t' (t0 :: ts) -> snd t' = true)).
+    { intros Hex Hd. apply existsb_exists in Hex. destruct Hex as (t & Hin & Hc). apply Z.eqb_eq in Hc.
+      exists t. repeat split; auto. }
+    destruct (o_api_sd_first o) eqn:Eapi; [apply Hany; auto|].
+    destruct (filter (fun t : iid * Z * bool => negb (snd t)) (t0 :: ts)) as [|g0 gs] eqn:Ef.
+    + apply Hany; [exact H2|]. right. intros t' Hin. destruct (snd t') eqn:Es; [reflexivity|].
+      assert (Hf : In t' (filter (fun t : iid * Z * bool => negb (snd t)) (t0 :: ts))) by (apply filter_In; split; [exact Hin|now rewrite Es]).
+      rewrite Ef in Hf. destruct Hf.
+    + rewrite <- Ef in H2. apply existsb_exists in H2. destruct H2 as (t & Hin & Hc). apply filter_In in Hin.
+      destruct Hin as [Hin Hg]. apply Z.eqb_eq in Hc. apply negb_true_iff in Hg. exists t. auto.
+Qed.
+
+Theorem C04_declarative_lemma : forall cs ord evs s,
+  accept (init cs ord) evs = Some s -> C04_disciplined cs evs = true ->
+  forall k th c, nth_error evs k = Some (th, ERunReturn c) -> C04_at_return (obs_at cs evs k) c.
+Proof.
+  intros cs ord evs s Hacc Hd k th c Hn. apply (mon_C04_spec cs _ th).
+  exact (holds_nth cs mon_C04 evs (C04_main_partial_lemma cs ord evs s Hacc Hd) k _ Hn).
+Qed.
